@@ -202,7 +202,8 @@ PROPS = {
     "C07": dict(
         pkg="c07", level="exploration", journal_cases=True,
         tests=[T("TestC07", Q(24, timeout=300, shards=4, shrinktime="30s"), Q(120, timeout=1500, shards=16, shrinktime="90s")),
-               T("TestC07Image", Q(60, timeout=300, shrinktime="20s"), Q(600, timeout=1200, shards=6, shrinktime="60s"))],
+               T("TestC07Image", Q(60, timeout=300, shrinktime="20s"), Q(600, timeout=1200, shards=6, shrinktime="60s")),
+               T("TestC07Cluster", Q(20, timeout=300, shrinktime="20s"), Q(150, timeout=1200, shards=4, shrinktime="60s"))],
         rule="Each case: a leader table with 0-60 generated pairs (values empty..3 KB; thorough also 256 KiB-2 MiB), a target server started with a generated MaxInMemLogSize (0 = unlimited, 1 MiB, 6 MiB, or "
              "2*sum(first j record sizes)+slack so that the half-size batch threshold falls on record j, raised to twice the biggest record so the setting is operable), a target table with 0-5 unrelated pre-restore pairs; "
              "source = backup file (real BackupServer.Backup over gRPC + backup.Restore through the target's Maintenance service, optionally with one flipped byte) or leader snapshot stream (real SnapshotServer.Stream + "
@@ -210,7 +211,9 @@ PROPS = {
              "follower leader index == leader index at capture, with writers content == model at exactly the declared index, corrupted file => error and table unchanged. "
              "Non-trivial iff >=3 records AND (the batch threshold is crossed inside the stream OR the limit is 0), or an empty captured table restored over data. "
              "TestC07Image: the table dump behind both sources (fsm.SnapshotRequest) taken by 1-3 goroutines while a generated log is applied in generated Update calls (some with > 16 MiB of pending writes); "
-             "every dump must equal the model after exactly the entry it declares; non-trivial iff dumps at >=2 distinct indices were judged. Distinct = sha256 of case JSON.",
+             "every dump must equal the model after exactly the entry it declares; non-trivial iff dumps at >=2 distinct indices were judged. "
+             "TestC07Cluster: 1-3 restores (a fifth of them from a stream that breaks half way) issued on drawn nodes of a real 3-node cluster while every node runs reconcile rounds (back to back, or every 30 ms); after each, on EVERY node (once it knows the new table record): linearizable read == captured content resp. the old content after a broken stream, "
+             "declared leader index, a shard id above all earlier ones, writes still accepted; at the end every node's own copy == model. Distinct = sha256 of case JSON.",
         assumptions=["MaxInMemLogSize is at least twice the biggest record (dragonboat rejects larger proposals permanently)", "single-node leader and target engines, in-process, in-memory file systems, real gRPC over loopback"],
         technique="round-trip property-based testing on real engines (generated content x configuration), model comparison",
         level_text="Randomised exploration of (content, configuration, source) triples on real engines with an exact content oracle.",
